@@ -126,7 +126,9 @@ def finish(ctx: Ctx, t0: float, seed: int) -> int:
     vacuous = [r for r, mn in ctx.rule_floor.items()
                if ctx.rule_instances.get(r, 0) < mn]
 
-    ev_dir = os.path.join(VERIF, 'evidence')
+    # tools (seed re-evaluation, fuzzers) redirect their throw-away evidence
+    ev_dir = os.environ.get('VERIF_EVIDENCE_DIR') or os.path.join(
+        VERIF, 'evidence')
     os.makedirs(ev_dir, exist_ok=True)
     ev_path = os.path.join(ev_dir, f'{ctx.prop}.json')
     viol_path = os.path.join(ev_dir, f'{ctx.prop}.violation.json')
